@@ -434,6 +434,7 @@ Fixpoint put_values (l : list atom) : prog unit :=
     | AInt z => b <- i2b z ;; put b
     | AFloat f => put f
     | ABool _ | AOther => Ret tt
+    | AByteArr _ => Raise TypeError
     end ;; put_values t
   end.
 Definition OP_GET_VALUE : prog unit :=
